@@ -5,7 +5,7 @@ From Coq Require Import List NArith ZArith Bool Lia.
 From Common Require Import Bytes Outcome.
 From Gen Require Import C09.
 From C09 Require Import Model Model4 ModelT Util Proofs_12 Proofs_4edges Proofs_4spec
-  Proofs_4emit Proofs_4dec Proofs_4rt Proofs_T Proofs_06.
+  Proofs_4emit Proofs_4dec Proofs_4rt Proofs_T Proofs_06 Proofs_Trt.
 Import ListNotations.
 Local Open Scope N_scope.
 
@@ -260,6 +260,30 @@ Theorem get_total :
     M_decode_table_bytes data = Ok t -> M_get macrune t k <> Panic.
 Proof. intros mr data t k H. exact (get_no_panic mr data t k H). Qed.
 Print Assumptions get_total.
+
+(* P2 table_roundtrip: for every table (a Go map keyed by (platform, encoding,
+   language), canonicalised as a list strictly sorted in Table.Encode's order)
+   whose entries are subtables cmap.Decode can return - wf_entry: platform <= 4,
+   encoding id 16 bit, at least 10 bytes, one of the formats 0,2,4,6 / 8,10,12,13
+   / 14 with its length field equal to its length (and >= 12 for the 32-bit
+   formats), and the key's language equal to the subtable's own language field
+   for platform 1 and 0 otherwise - with at most 65535 records and a total size
+   below 2^32:  Encode does not panic, Decode of the result returns exactly the
+   table (all keys, all subtable bytes, each found at its recorded offset), and
+   the encoded length is the header plus every DISTINCT subtable once (equal
+   subtables are shared). *)
+Theorem table_roundtrip :
+  forall (t : list (key * list N)),
+    keys_sorted (map fst t) = true ->
+    Forall wf_entry t ->
+    N.of_nat (length t) <= 65535 ->
+    4 + 8 * N.of_nat (length t) + N.of_nat (length (flat_map snd t)) < 4294967296 ->
+    exists b,
+      M_encode_table t = Ok b /\
+      M_decode_table_bytes b = Ok t /\
+      N.of_nat (length b) = 4 + 8 * N.of_nat (length t) + distinct_len [] t.
+Proof. intros t H1 H2 H3 H4. exact (table_roundtrip_lemma t H1 H2 H3 H4). Qed.
+Print Assumptions table_roundtrip.
 
 (* P1 getbest_preference: GetBest returns the subtable of the FIRST entry of
    the candidate list found in cmap.go that is present (with language 0) and
